@@ -95,7 +95,7 @@ class Unit:
         s.set("timeout", timeout_ms or self.timeout_ms)
         s.add(*constraints)
         t = time.time()
-        r = str(s.check())
+        r = symx.guarded_check(s, timeout_ms or self.timeout_ms)
         self.r["solver_s"] += time.time() - t
         self.r["solver_checks"] += 1
         return r, (s.model() if r == "sat" else None), s
